@@ -10,11 +10,41 @@ def fail_build(out):
     return 2
 
 
-def harness(drv, prop, tier, args, guard_on=True, extra_args=None):
-    tdir, out = drv.build(guard_on=guard_on, extra=["--bin", "hpke-mc"])
+# properties whose exploration is repeated with the library built the way a release user builds it (no debug
+# assertions, no overflow checks): functional behaviour must not depend on the profile
+RELPROD_QUICK = {"C02", "C05", "C08"}
+RELPROD_THOROUGH = {"C01", "C02", "C03", "C04", "C05", "C06", "C07", "C08", "C10", "C11", "C14", "C15"}
+
+
+def harness(drv, prop, tier, args, guard_on=True, extra_args=None, profile="release"):
+    if profile == "release" and guard_on and "--replay" not in args and "--emit-part" not in (extra_args or []) and \
+            prop in (RELPROD_THOROUGH if tier == "thorough" else RELPROD_QUICK):
+        part = os.path.join(drv.ROOT, "target", f"{prop}_relprod_part.json")
+        if os.path.exists(part):
+            os.remove(part)
+        ea = [a for a in (extra_args or []) if a not in ("--transcript",)]
+        if "--transcript" in (extra_args or []):
+            i = extra_args.index("--transcript")
+            ea = extra_args[:i] + extra_args[i + 2:]
+        rc = harness(drv, prop, tier, args, guard_on=True, extra_args=ea + ["--emit-part", part], profile="relprod")
+        if rc == 2 or not os.path.exists(part):
+            print("MACHINERY-ERROR the release-profile run did not produce its part", file=sys.stderr)
+            return 2
+        extra_args = (extra_args or []) + ["--merge-part", part]
+    if "--replay" in args:
+        try:
+            if "@relprod" in json.load(open(args[args.index("--replay") + 1])).get("part", ""):
+                profile = "relprod"
+        except Exception:
+            pass
+    tdir, out = drv.build(guard_on=guard_on, extra=["--bin", "hpke-mc"], profile=profile)
     if tdir is None:
         return fail_build(out)
-    exe = os.path.join(tdir, "release", "hpke-mc")
+    exe = os.path.join(tdir, profile, "hpke-mc")
+    if profile != "release":
+        os.environ["HPKE_MC_VARIANT"] = profile
+    else:
+        os.environ.pop("HPKE_MC_VARIANT", None)
     cmd = [exe, prop, "--root", drv.ROOT] + args + (extra_args or [])
     if "--replay" in args:
         return drv.run(cmd, cwd=drv.ROOT)
